@@ -385,6 +385,9 @@ def obj_ops_alphabet():
         ("writeres", 1, "llh"), ("mask", 3, None), ("derived", "L", "zenith_distance"), ("setitem", "L", 3),
         ("tindex", 6, 1), ("tindex", 6, -1), ("tmax", 6, None), ("tview", 6, 0), ("tview", 6, 2), ("tconv", 6, "tai"),
         ("tconv", "T", "tai"), ("tconv", "T", "gps"), ("tconv", 7, "tai"), ("tconv", 8, "tai"), ("tfmt", "T", "mjd"), ("tslice", 6, (1, 3)),
+        # reading a format / derived array of a time and writing into what was returned
+        ("twrite", 6, "mjd"), ("twrite", 6, "jd_frac"), ("twrite", 6, "year"), ("twrite", 7, "mjd"), ("tfmt", 6, "mjd"),
+        ("tfmt", 6, "jd_frac"), ("tfmt", 6, "year"), ("tfmt", 7, "mjd"), ("tfmt", 6, "gps_ws?"),
         # position deltas: conversions depend on the reference position
         ("conv", 9, "enu"), ("conv", 9, "trs"), ("setitem", 10, 4), ("setref", 9, 5), ("conv", 11, "enu"), ("setitem", 11, 1),
     ]
@@ -468,6 +471,16 @@ def run_obj_history(w: ObjWorld, ops, rng_state=None):
                 r[...] = 12345.0
                 tainted.add((tgt, arg))
                 obs.append(("wrote",))
+            elif kind == "twrite":
+                r = getattr(o, arg)
+                try:
+                    if isinstance(r, np.ndarray):
+                        r[...] = r[...] * 0 + 7
+                        obs.append(("wrote",))
+                    else:
+                        obs.append(("not-an-array",))
+                except (ValueError, TypeError):
+                    obs.append(("refused",))
             elif kind in ("tindex", "tmax", "tview", "tconv", "tfmt", "tslice"):
                 if tgt == "T":
                     tgt = tlast
@@ -498,7 +511,7 @@ def run_obj_history(w: ObjWorld, ops, rng_state=None):
                         rt = getattr(twin, arg)
                         obs.append(("twin",) + w.observe(rt) + (np.shape(rt.jd1), np.asarray(rt.jd1, dtype=float).tolist()))
                 elif kind == "tfmt":
-                    r = getattr(o, arg)
+                    r = getattr(o, arg.rstrip("?"))
                     obs.append(("val", json.dumps(np.asarray(r).tolist()), list(np.shape(r))))
         except Exception as e:
             obs.append(("ERR", type(e).__name__))
@@ -709,7 +722,7 @@ def run(ctx: Ctx):
         pass
     # read – change – read again, for every reading and every changing operation (and through a row view)
     reads = [o for o in alphabet if o[0] in ("conv", "derived", "tconv", "tfmt")]
-    muts = [o for o in alphabet if o[0] in ("setitem", "setother", "setref", "writeres")]
+    muts = [o for o in alphabet if o[0] in ("setitem", "setother", "setref", "writeres", "twrite")]
     for r in reads:
         for m in muts:
             seqs.append((r, m, r))
